@@ -252,6 +252,14 @@ def graph_fixed():
     c4 = add(Item("FgCaseUnit2", "FgCaseUnit2", "named", fields=[Field("fg_c4", prim("u8"))], export_to="fgcase/Geo/UNIT.ts"))
     add(Item("FgCaseHolder", "FgCaseHolder", "named", fields=[Field("fg_a", user(c1)), Field("fg_b", user(c2)), Field("fg_c", user(c3)), Field("fg_d", user(c4))],
              export_to="fgcase/"))
+    # two types of one file that import different names from one other file (the union of the import lines per path)
+    ia = add(Item("FgImpA", "FgImpA", "named", fields=[Field("fg_ia", prim("u8"))], export_to="fgimp/m.ts"))
+    ib = add(Item("FgImpB", "FgImpB", "named", fields=[Field("fg_ib", prim("u8"))], export_to="fgimp/m.ts"))
+    ic = add(Item("FgImpC", "FgImpC", "named", fields=[Field("fg_ic", prim("u8"))], export_to="fgimp/m.ts"))
+    ua = add(Item("FgImpUserA", "FgImpUserA", "named", fields=[Field("fg_ua", user(ia))], export_to="fgimp/s.ts"))
+    ub = add(Item("FgImpUserB", "FgImpUserB", "named", fields=[Field("fg_ub", user(ib)), Field("fg_ub2", Ty("opt", args=[user(ic)]))], export_to="fgimp/s.ts"))
+    uc = add(Item("FgImpUserC", "FgImpUserC", "named", fields=[Field("fg_uc", Ty("vec", args=[user(ic)]))], export_to="fgimp/s.ts"))
+    add(Item("FgImpRoot", "FgImpRoot", "named", fields=[Field("fg_r1", user(ua)), Field("fg_r2", user(ub)), Field("fg_r3", user(uc))]))
     # directory names that need escaping inside the import statement's string literal
     qd = add(Item("FgQuoteDep", "FgQuoteDep", "named", fields=[Field("fg_q", prim("u8"))], export_to='fg"quo"te/'))
     bd = add(Item("FgBackslashDep", "FgBackslashDep", "named", fields=[Field("fg_b", prim("u8"))], export_to="fgback\\slash/n.ts"))
